@@ -235,10 +235,16 @@ func (r *Run) WorkerDone() {
 
 // Spawn runs n worker subprocesses of this binary (shards 0..n-1) for phase
 // arg and merges what they report. A worker that dies is a harness fault.
-// perWorkerTimeout==0 means 45 minutes.
+// perWorkerTimeout==0 means 45 minutes in the quick tier and 6 hours in the thorough tier (a last resort: a case
+// that hangs is caught by the worker's own watchdog long before; the thorough tiers take 10-20 minutes per worker on 16
+// idle cores, and several times that when the machine is shared - a limit near that figure turned load into
+// HARNESS-FAULT).
 func (r *Run) Spawn(n int, arg string, perWorkerTimeout time.Duration) {
 	if perWorkerTimeout == 0 {
 		perWorkerTimeout = 45 * time.Minute
+		if r.Thorough() {
+			perWorkerTimeout = 6 * time.Hour
+		}
 	}
 	self, err := os.Executable()
 	if err != nil {
